@@ -10,6 +10,7 @@ derive's attribute parser are written from, into lean/SIM/Extracted/ImplTable.le
   nonZero      rows `NonZeroX: x` of `impl_for_non_zero!`
   captureDocs  accepted values of `capture_docs = ".."` (the string arms of `impl Parse for CaptureDocsAttr`)
   keywords     `syn::custom_keyword!(..)` of the derive's attribute module
+  typeParams   per impl, the arguments of `type_params![..]`
   literals     per impl, the string literals (path, variant / member / type names, docs) and `.index(n)` arguments of its `type_info()` body
 
 SIM.C16impls / SIM.C04impls compare them with the committed copy (rfl) and prove that the model's `identity`, primitive mapping and
@@ -72,7 +73,7 @@ def forward_of(fn_body):
 
 def extract(impls, attr):
     impls, attr = strip_comments(impls), strip_comments(attr)
-    identities, prims, arities, nonzero, literals = [], [], [], [], []
+    identities, prims, arities, nonzero, literals, params = [], [], [], [], [], []
     # macros that generate impls
     for m in re.finditer(r'macro_rules!\s*([a-z_]+)\s*', impls):
         body, _ = block_from(impls, m.end())
@@ -101,6 +102,9 @@ def extract(impls, attr):
         idxs = [int(x) for x in re.findall(r'\.index\(\s*(\d+)\s*\)', fb)]
         if lits or idxs:
             literals.append((target, lits, idxs))
+        tpm = re.search(r'type_params!\s*[\[(]([^\])]*)[\])]', fb)
+        if tpm:
+            params.append((target, [x.strip() for x in tpm.group(1).split(',') if x.strip()]))
         pm = re.fullmatch(r'\{TypeDefPrimitive::([A-Za-z0-9]+)\.into\(\)\}', nows(fb))
         if pm:
             prims.append((target, pm.group(1).lower()))
@@ -122,11 +126,11 @@ def extract(impls, attr):
     lowered = '.to_lowercase()' in cbody
     capture = [(r.group(1), r.group(2).lower()) for r in re.finditer(r'"([^"]*)"\s*=>\s*Ok\(Self::([A-Za-z]+)\)', cbody)]
     keywords = re.findall(r'custom_keyword!\(\s*([a-z_]+)\s*\)', attr)
-    return identities, prims, arities, nonzero, capture, lowered, keywords, literals
+    return identities, prims, arities, nonzero, capture, lowered, keywords, literals, params
 
 
 def render(ns, head, data):
-    identities, prims, arities, nonzero, capture, lowered, keywords, literals = data
+    identities, prims, arities, nonzero, capture, lowered, keywords, literals, params = data
     b = lambda x: 'true' if x else 'false'
     L = [head, 'import SIM.Model.Types', 'namespace SIM', f'namespace {ns}', 'namespace ImplTable', '']
     L.append('/-- (`impl TypeInfo for` target or generating macro, declared `type Identity`, `X` when `type_info()` is the single call `X::type_info()`, else empty), in source order -/')
@@ -146,6 +150,9 @@ def render(ns, head, data):
     L.append('/-- per impl: the string literals and the `.index(n)` arguments its `type_info()` body writes, in source order -/')
     L.append('def literals : List (Str × List Str × List Nat) :=\n  [' + ',\n   '.join(
         f'({bl(t)}, [' + ', '.join(bl(x) for x in ls) + '], [' + ', '.join(str(i) for i in ix) + '])' for t, ls, ix in literals) + ']\n')
+    L.append('/-- per impl: the arguments of `type_params![..]` (each names a type parameter and is its type) -/')
+    L.append('def typeParams : List (Str × List Str) :=\n  [' + ',\n   '.join(
+        f'({bl(t)}, [' + ', '.join(bl(x) for x in ps) + '])' for t, ps in params) + ']\n')
     L += ['end ImplTable', f'end {ns}', 'end SIM', '']
     return '\n'.join(L)
 
@@ -162,7 +169,7 @@ def main():
         data = extract(impls, attr)
     except Exception as e:   # a source the patterns no longer fit: an empty extraction breaks `extracted_is_expected` by name
         print('extract_impl_tables: cannot read the source:', repr(e), file=sys.stderr)
-        data = ([], [], [], [], [], False, [], [])
+        data = ([], [], [], [], [], False, [], [], [])
     if exp:
         head = ('/- The tables the model of the built-in impls (`Impls.identity`, the primitive mapping) and of the derive\'s `capture_docs` parser are written from:\n'
                 '   a committed copy of what translators/extract_impl_tables.py extracts (SIM.C16.extracted_impls_ok re-checks equality with the extraction of every run). -/')
